@@ -22,6 +22,7 @@ Proof.
   - apply new_refines.
   - apply fromkeys_refines.
   - apply copyother_refines.
+  - apply copycyc_refines.
   - apply items_refines.
   - apply keys_refines.
   - apply values_refines.
